@@ -97,6 +97,9 @@ def model_desc(draw, depth=0, max_fields=6):
             while fd['k'] != kind:
                 fd = draw(_leaf(st.just(0)))
             fd['t'] = fresh_type()
+            if draw(st.integers(0, 4)) == 0 and fd.get('base', 'int') == 'int':
+                # a declared default (documented: used when the field is not assigned before encoding / absent when parsing)
+                fd['default'] = draw(value_for(dict(fd), allow_none=False))
         elif kind == 'model':
             fd = {'k': 'model', 't': fresh_type(), 'm': draw(model_desc(depth + 1)), 'ic': draw(st.booleans())}
         elif kind == 'rep':
@@ -123,10 +126,15 @@ def model_desc(draw, depth=0, max_fields=6):
             key = {'k': kk, 't': fresh_type()}
             if kk == 'uint':
                 key.update(fixed=None, base='int')
-            vk = draw(st.sampled_from(['uint', 'bytes', 'text', 'model']))
+            vk = draw(st.sampled_from(['uint', 'bytes', 'text', 'model', 'name']))
             if vk == 'model' and depth >= 2:
                 vk = 'bytes'
-            if vk == 'model':
+            if vk == 'name' and has_name:
+                vk = 'bytes'
+            if vk == 'name':
+                has_name = True
+                val = {'k': 'name', 't': 7}
+            elif vk == 'model':
                 val = {'k': 'model', 't': fresh_type(), 'm': draw(model_desc(depth + 1)), 'ic': False}
             else:
                 val = {'k': vk, 't': fresh_type()}
@@ -185,6 +193,8 @@ def value_for(fd, allow_none=True):
                         unique_by=lambda kv: repr(kv[0]))
     else:
         raise ValueError(k)
+    if allow_none and 'default' in fd:
+        return st.one_of(st.just('__unset__'), st.just('__unset__'), st.none(), s, s)
     return st.one_of(st.none(), s, s, s) if allow_none else s
 
 
@@ -199,6 +209,8 @@ def enc_field(fd, v):
         return b''.join(enc_field(fd['e'], x) for x in (v or []))
     if k == 'map':
         return b''.join(enc_field(fd['key'], kk) + enc_field(fd['val'], vv) for kk, vv in (v or []))
+    if v == '__unset__':
+        v = fd['default']
     if v is None:
         return b''
     if k == 'uint':
@@ -228,13 +240,13 @@ def mk_field(fd, classes):
     k = fd['k']
     if k == 'uint':
         base = {'int': int, 'enum': Color, 'flag': Perm}.get(fd.get('base', 'int'), int)
-        return UintField(fd['t'], fixed_len=fd.get('fixed'), val_base_type=base)
+        return UintField(fd['t'], default=fd.get('default'), fixed_len=fd.get('fixed'), val_base_type=base)
     if k == 'bool':
         return BoolField(fd['t'])
     if k == 'bytes':
-        return BytesField(fd['t'])
+        return BytesField(fd['t'], default=None if fd.get('default') is None else _bytes_of(fd['default']))
     if k == 'text':
-        return BytesField(fd['t'], is_string=True)
+        return BytesField(fd['t'], default=fd.get('default'), is_string=True)
     if k == 'name':
         return NameField()
     if k == 'model':
@@ -295,6 +307,8 @@ def mk_instance(desc, vals, classes, cls=None):
     obj = cls()
     for fd in desc['fields']:
         v = vals.get(fd['n'])
+        if v == '__unset__':
+            continue                                      # never assigned: the declared default applies
         setattr(obj, fd['n'], to_py(fd, v, classes))     # explicit None too (constructors may install defaults)
     return obj
 
@@ -334,6 +348,8 @@ def norm_json(fd, v):
         return [norm_json(fd['e'], x) for x in (v or [])]
     if k == 'map':
         return [[norm_json(fd['key'], kk), norm_json(fd['val'], vv)] for kk, vv in (v or [])]
+    if v == '__unset__' or (v is None and fd.get('default') is not None):
+        v = fd['default']            # encoded default comes back; an omitted field parses to its default (documented)
     if v is None:
         return None
     if k == 'bool':
@@ -458,6 +474,9 @@ def _bc(fd, v, acc):
         if v:
             acc.add('map')
         return
+    if v == '__unset__':
+        acc.add('default-used')
+        v = fd['default']
     if v is None:
         return
     if fd['t'] >= 253:
@@ -530,7 +549,7 @@ def check_model(r, tag, desc, vals, cls, classes, salt=0, do_insert=True):
     back = decode_equal(wire, 'roundtrip')
     if back is None:
         return
-    if not _has_false_bool(desc, vals):
+    if not _has_false_bool(desc, vals) and not _none_over_default(desc, vals):
         try:
             if not (back == obj and obj == back):
                 r.bad(f'C08/{tag}/roundtrip/__eq__-false', f'wire={wire.hex()[:120]}')
@@ -617,6 +636,22 @@ def _boolnorm(x):
     if x is False:
         return None
     return x
+
+
+def _none_over_default(desc, vals):
+    """A field with a declared default explicitly assigned None: omitted on the wire, parses back to the default (documented),
+    so TlvModel.__eq__ between the original and the parsed object is legitimately False."""
+    for fd in desc['fields']:
+        v = vals.get(fd['n'])
+        if fd.get('default') is not None and v is None:
+            return True
+        if fd['k'] == 'model' and v not in (None, '__unset__') and _none_over_default(fd['m'], v):
+            return True
+        if fd['k'] == 'rep' and fd['e']['k'] == 'model' and any(_none_over_default(fd['e']['m'], x) for x in v or []):
+            return True
+        if fd['k'] == 'map' and fd['val']['k'] == 'model' and any(_none_over_default(fd['val']['m'], x[1]) for x in v or []):
+            return True
+    return False
 
 
 def _has_false_bool(desc, vals):
